@@ -1,5 +1,6 @@
 from __future__ import annotations
 
+import sys
 import struct
 import math
 import functools
@@ -227,6 +228,8 @@ def int2bitstore(i: int, length: int, signed: bool) -> BitStore:
     try:
         x = BitStore(bitarray.util.int2ba(i, length=length, endian='big', signed=signed))
     except OverflowError as e:
+        if length > sys.maxsize:
+            raise bitstring.CreationError(f"Can't create a bitstring of length {length} as it is too large.")
         if signed:
             if i >= (1 << (length - 1)) or i < -(1 << (length - 1)):
                 raise bitstring.CreationError(f"{i} is too large a signed integer for a bitstring of length {length}. "
